@@ -30,7 +30,7 @@ APPENDIX = [
 
 
 def setup(tier):
-    tk.get(("ac",))
+    tk.get(("ac", "hs", "ref"))
 
 
 def _snap(c):
@@ -135,5 +135,7 @@ def _cases():
 
 
 def phases(tier):
-    n = 16000 if tier == "quick" else 800000
-    return [Phase("docs", "gen", strategy=_cases, n=n), Phase("long-prose-before", "gen", strategy=_long_prose_before, n=n // 4)]
+    n = 12000 if tier == "quick" else 800000
+    other = lambda which: _cases().map(lambda c: {**c, "tokenizer": which})
+    return [Phase("docs", "gen", strategy=_cases, n=n), Phase("long-prose-before", "gen", strategy=_long_prose_before, n=n // 4),
+            Phase("docs-hs", "gen", strategy=lambda: other("hs"), n=n // 10), Phase("docs-ref", "gen", strategy=lambda: other("ref"), n=n // 20)]
